@@ -286,6 +286,7 @@ def main():
     import rt
     import pool
     ns = rt.namespace()
+    ns.update({'T_': pool.T_, 'U_': pool.U_})          # the type variables of the pool's generic class hierarchies
     contracts = load_contracts(ns)
     harvested = pool.harvest()
     keys = [a.func] if a.func else (a.funcs.split(',') if a.funcs else [k for k, c in contracts.items() if not c.get('trusted')])
